@@ -37,6 +37,7 @@ type frame struct {
 	recvObj  types.Object
 	funcLits int
 	body     *ast.BlockStmt
+	ghosts   map[string]Val // snapshots: ghost values captured at an anchor
 }
 
 type Exec struct {
@@ -686,6 +687,7 @@ type assignTarget struct {
 	fieldSet map[int]bool
 	ty       *Ty
 	global   types.Object
+	lo, hi   *Term // x[*]: the window of absolute cell indices of x inside its region
 }
 
 // assignTargets resolves assigns expressions (evaluated in env's state).
@@ -706,7 +708,7 @@ func (x *Exec) assignTargets(env *CEnv, as []*CExpr) []assignTarget {
 				env.errf(a, "assigns x[*]: x must be a slice")
 			}
 			hn, _ := x.elemHeapOf(env.state(), s.Ty.Elem)
-			out = append(out, assignTarget{heap: hn, key: slReg(s.T), field: -1})
+			out = append(out, assignTarget{heap: hn, key: slReg(s.T), field: -1, lo: slOff(s.T), hi: Add(slOff(s.T), slLen(s.T))})
 		case "field":
 			p := env.eval(a.Args[0])
 			if p.Ty.K != TPtr || p.Ty.Elem.K != TStruct {
